@@ -36,7 +36,9 @@ pub const K_NONCOINBASE_FIRST: u8 = 18;
 pub const K_BAD_MERKLE: u8 = 19;
 pub const K_DUP_TX: u8 = 20;
 pub const K_CHILD_OF_PREVIOUS: u8 = 21;
-pub const ALL_ITEMS: [u8; 21] = [1, 21, 2, 3, 4, 5, 6, 7, 8, 9, 10, 11, 12, 13, 14, 15, 16, 17, 18, 19, 20];
+pub const K_TIME_JUST_ABOVE_MEDIAN: u8 = 22;
+pub const K_TIME_AT_LIMIT: u8 = 23;
+pub const ALL_ITEMS: [u8; 23] = [1, 21, 22, 23, 2, 3, 4, 5, 6, 7, 8, 9, 10, 11, 12, 13, 14, 15, 16, 17, 18, 19, 20];
 
 pub fn item_name(k: u8) -> &'static str {
     match k {
@@ -61,6 +63,8 @@ pub fn item_name(k: u8) -> &'static str {
         19 => "wrong merkle root",
         20 => "duplicated transaction (CVE-2012-2459)",
         21 => "valid child of the previous item",
+        22 => "valid: timestamp = median + 1 (older than its parent)",
+        23 => "valid: timestamp = now + 2h exactly",
         _ => "?",
     }
 }
@@ -173,7 +177,16 @@ fn build_item(w: &World, k: u8, pos: usize, prev: Option<&bitcoin::Block>, resp_
     };
     match k {
         K_CHILD_OF_TIP => ok(good(&hdr_of(&tip)?)),
-        K_CHILD_OF_PREVIOUS => ok(good(&prev?.header)),
+        K_CHILD_OF_PREVIOUS => {
+            let p = prev?.header;
+            // a child of a block at the two-hour limit cannot be both later than the median
+            // and within the limit on short chains: not offered
+            if p.time as u64 + 600 > w.now + 7200 {
+                return None;
+            }
+            let t = p.time + 600;
+            ok(factory::regtest_block(&p, t, vec![simple_cb(w, salt)]))
+        }
         K_CHILD_OF_FORK => {
             let best: HashSet<H32> = w.refm.best_chain(&anchor).into_iter().collect();
             let f = tree.iter().find(|h| !best.contains(*h))?;
@@ -230,6 +243,15 @@ fn build_item(w: &World, k: u8, pos: usize, prev: Option<&bitcoin::Block>, resp_
             let mtp = median_time_past(w, &tip);
             let txs = vec![simple_cb(w, salt)];
             bad(factory::regtest_block(&p, mtp, txs))
+        }
+        K_TIME_JUST_ABOVE_MEDIAN => {
+            let p = hdr_of(&tip)?;
+            let mtp = median_time_past(w, &tip);
+            ok(factory::regtest_block(&p, mtp + 1, vec![simple_cb(w, salt)]))
+        }
+        K_TIME_AT_LIMIT => {
+            let p = hdr_of(&tip)?;
+            ok(factory::regtest_block(&p, (w.now + 7200) as u32, vec![simple_cb(w, salt)]))
         }
         K_TIME_FUTURE => {
             let p = hdr_of(&tip)?;
